@@ -350,6 +350,37 @@ func TestC13_Grid(t *testing.T) {
 		}
 	}
 	stats.ExhaustivePart("crit-combinations", (n-n0)/nsh)
+	// (3b) crit entries and present labels that differ in kind only: integer 0, the empty text label, the
+	// texts "0", "4", "-1" and the integers 4, -1 (a label is an int or a tstr; the two never coincide)
+	n0 = n
+	kinds := []rc.Val{rc.Int(0), rc.Text(""), rc.Text("0"), rc.Int(4), rc.Text("4"), rc.Int(-1), rc.Text("-1"), rc.Text("\x00"), rc.Text("\x04")}
+	for _, ctx := range c13Ctxs {
+		if ctx == "unprotected" {
+			continue
+		}
+		for _, present := range kinds {
+			for _, second := range append([]rc.Val{{K: rc.KRaw}}, kinds...) {
+				if second.K != rc.KRaw && second.String() == present.String() {
+					continue
+				}
+				for _, listed := range kinds {
+					val := func(l rc.Val) rc.Val {
+						if i, ok := l.Int64(); ok && l.K == rc.KInt && i == 4 {
+							return rc.Bytes([]byte("kid"))
+						}
+						return rc.Int(1)
+					}
+					m := rc.Map(rc.E(present, val(present)))
+					if second.K != rc.KRaw {
+						m.M = append(m.M, rc.E(second, val(second)))
+					}
+					m.M = append(m.M, rc.E(rc.Int(2), rc.Array(listed)))
+					run(c13Case{Ctx: ctx, Prot: m, Unprot: rc.Map(), Cell: fmt.Sprintf("crit-kinds/%s/present=%s+%s/listed=%s", ctx, present, second, listed)})
+				}
+			}
+		}
+	}
+	stats.ExhaustivePart("crit-entry-vs-label-kind", (n-n0)/nsh)
 	// (4) a conforming parameter next to a second parameter of any kind in the same bucket
 	n0 = n
 	csig := rc.Array(rc.Bytes(nil), rc.Map(), rc.Bytes([]byte{1}))
